@@ -164,6 +164,8 @@ class Resolver:
             c = o["const"]
             if c.get("ty") == "fn":
                 return E("const", None, "fn", c.get("def"), c)
+            if c.get("closure"):
+                return E("closure", c["closure"], [])
             return E("const", c.get("int"), c.get("ty"), c.get("str"), c)
         return self.place(op_place(o), depth)
 
